@@ -243,5 +243,11 @@ func validateExpiration(str string, date time.Time) error {
 		return s3err.GetAPIError(s3err.ErrExpiredPresignRequest)
 	}
 
+	// a date in the future (beyond the clock skew that header authentication
+	// allows) would make the url valid for longer than it says
+	if passed < -timeExpirationSec {
+		return s3err.GetAPIError(s3err.ErrRequestNotReadyYet)
+	}
+
 	return nil
 }
